@@ -909,7 +909,9 @@ Inductive pval :=
 | VTuple (l : list pval)
 | VList (l : list pval)
 | VDict (kv : list (pval * pval))        (* a mutable dict *)
-| VFrozen (kv : list (pval * pval)).     (* dns.immutable.Dict *)
+| VFrozen (kv : list (pval * pval))      (* dns.immutable.Dict *)
+| VObj (z : Z).                          (* any other object, e.g. a dns.edns.Option: mutable,
+                                            hashable by identity, not a container *)
 
 (* hash(o) succeeds *)
 Fixpoint hashable (v : pval) : bool :=
@@ -918,6 +920,7 @@ Fixpoint hashable (v : pval) : bool :=
   | VByteArray _ | VList _ | VDict _ => false
   | VTuple l => forallb hashable l
   | VFrozen _ => true
+  | VObj _ => true
   end.
 
 Fixpoint constify (v : pval) : pval :=
@@ -1151,6 +1154,7 @@ Fixpoint pval_of_obs (o : obs) : option pval :=
                                   | Some a, Some b, Some l' => Some ((a, b) :: l') | _, _, _ => None end
                | _ => None
                end) l with Some l' => Some (VFrozen l') | None => None end
+  | L [I 10; I z] => Some (VObj z)
   | _ => None
   end.
 
@@ -1165,6 +1169,7 @@ Fixpoint obs_of_pval (v : pval) : obs :=
   | VList l => L [I 7; L (map obs_of_pval l)]
   | VDict kv => L [I 8; L (map (fun p => L [obs_of_pval (fst p); obs_of_pval (snd p)]) kv)]
   | VFrozen kv => L [I 9; L (map (fun p => L [obs_of_pval (fst p); obs_of_pval (snd p)]) kv)]
+  | VObj z => L [I 10; I z]
   end.
 
 Definition obs_store (s : store) : obs :=
